@@ -19,6 +19,16 @@ CHECKS = {
    text="The real ValidateTool.execute, WriteTool.execute (up to the write block, corrections_only) and EjectTool.execute run under CrossHair with every flag, profile spelling, input mode, schema-resolution outcome (builtin / file with or without fields / none / raises / frozen@ and latest resolution failing), parse outcome, validator outcome before and after repair, emit/compile failure as solver variables; on every path the envelope must carry validation_status in the three values, valid <=> VALIDATED, VALIDATED only with a schema applied and no blocking error, UNVALIDATED on any parse failure or unresolved schema, INVALID only with errors and schema name/version. Path trees exhausted. Real load_schema_by_name executed on all malformed names <= 4 chars.",
    note="Collaborators are stubs with symbolic outcomes (their own behaviour is decided under C01-C13); CLI wrappers and 'VALIDATED canonical is VALIDATED again' (C09 o C01) are not re-checked here.",
    ref="DESIGN.md §4 C10, §3 tool layer"),
+ "C16": dict(
+   technique="CrossHair symbolic execution of the real write paths over an in-memory file-system model with symbolic fault and kill schedule",
+   text="The real file_ops.atomic_write_octave and the real WriteTool.execute (content / changes / normalize modes; parse/emit stage stubbed) run under CrossHair over vf/fsmodel.py. The step at which the process is killed, the steps and errno kinds of up to two injected failures, the mode bits and the scenario (new file, overwrite, missing parent directory, base_hash none / matching / stale) are solver variables; at the kill point and at every return the target must hold exactly its previous bytes (or be absent) or exactly the new text, an error return must leave target and mode identical with no temp file beside it (unless the injected failure hit that unlink), success must hash to the returned canonical_hash and keep the mode. Every path tree is exhausted; a harness-local direct-open mutant must be refuted by the same judge.",
+   note="Trusted: the file-system model (POSIX subset, atomic os.replace, truncating open, data visible at flush/close); process-kill crash model only (no power-loss/fsync ordering, no NFS); SHA-256 as injective stub; path validation stubbed (C19).",
+   ref="DESIGN.md §4 C16"),
+ "C17": dict(
+   technique="CrossHair symbolic execution over the file-system model: one inductive step from an arbitrary file state; second writer as an atomic install at a symbolic step",
+   text="C17.a: from a symbolic pre-state (target absent / holding the content base_hash names / other content) one real call (WriteTool.execute in each mode, atomic_write_octave) with symbolic base_hash relation, corrections_only and one injected failure is compared with the register model: stale hash => E_HASH and identical file system, dry and failed calls leave files, directories and links identical, a successful install overwrote content hashing to base_hash, the tool object keeps no state (so one step stands for any history). C17.b: writer B's install is injected at every step of writer A's real run while both hold the same base_hash. Known findings (no lock: narrow re-check window; directories created before a later failure) are excluded as families inside the query, anything else is reported.",
+   note="CAS claimed for files existing at call start (documented scope); file-system model and injective hash stub trusted; more than two writers and non-POSIX rename semantics outside the claim.",
+   ref="DESIGN.md §4 C17"),
 }
 NOT_APPLICABLE = {
  "C06": "quantifies over interpreter configurations (PYTHONHASHSEED, locale, cwd, process boundaries, task interleavings); symbolic execution runs inside one configuration and cannot make these symbolic (DESIGN.md §4 C06)",
